@@ -127,7 +127,74 @@ pub fn c11_selection_simd_dual64() {
     cover!(neg);
 }
 
+/// single-lane SIMD view of the vector types, every presence pattern of `self` and `val`:
+/// after `replace(0, val)` the lane holds `val` (an absent part of `val` reads as zeros)
+#[cfg_attr(kani, kani::proof)]
+pub fn c11_simd_dualvec_presence() {
+    use nalgebra::{SVector, U1};
+    type V = DualVec<f64, f64, Const<2>>;
+    let mk = |present: bool| -> V {
+        let eps = if present {
+            Derivative::some(SVector::<f64, 2>::new(any_f64(), any_f64()))
+        } else {
+            Derivative::none()
+        };
+        DualVec::new(any_f64(), eps)
+    };
+    let (ps, pv) = (any_bool(), any_bool());
+    let x = mk(ps);
+    let val = mk(pv);
+    let ve = val.eps.clone().unwrap_generic(Const::<2>, U1);
+    let mut t = x.clone();
+    t.replace(0, val.clone());
+    let got = t.extract(0);
+    let ge = got.eps.clone().unwrap_generic(Const::<2>, U1);
+    assert!(same64(got.re, val.re));
+    assert!(eq64(ge[0], ve[0]) && eq64(ge[1], ve[1]));
+    // splat / extract round trip and select
+    let sp = <V as SimdValue>::splat(x.clone());
+    let ex = sp.extract(0);
+    let xe = x.eps.clone().unwrap_generic(Const::<2>, U1);
+    let ee = ex.eps.clone().unwrap_generic(Const::<2>, U1);
+    assert!(same64(ex.re, x.re) && eq64(ee[0], xe[0]) && eq64(ee[1], xe[1]));
+    assert!((ex.eps == Derivative::none()) == !ps);
+    let s1 = x.clone().select(true, val.clone());
+    let s0 = x.clone().select(false, val.clone());
+    assert!(same64(s1.re, x.re) && same64(s0.re, val.re));
+    assert!((s1.eps == Derivative::none()) == !ps && (s0.eps == Derivative::none()) == !pv);
+    cover!(ps && !pv);
+    cover!(!ps && pv);
+}
+
+#[cfg_attr(kani, kani::proof)]
+pub fn c11_simd_dual2vec_presence() {
+    use nalgebra::{SMatrix, U1};
+    type V = Dual2Vec<f64, f64, Const<2>>;
+    let mk = |p1: bool, p2: bool| -> V {
+        let v1 = if p1 { Derivative::some(SMatrix::<f64, 1, 2>::new(any_f64(), any_f64())) } else { Derivative::none() };
+        let v2 = if p2 {
+            Derivative::some(SMatrix::<f64, 2, 2>::new(any_f64(), any_f64(), any_f64(), any_f64()))
+        } else {
+            Derivative::none()
+        };
+        Dual2Vec::new(any_f64(), v1, v2)
+    };
+    let x = mk(any_bool(), any_bool());
+    let val = mk(any_bool(), any_bool());
+    let mut t = x.clone();
+    t.replace(0, val.clone());
+    let got = t.extract(0);
+    let (g1, w1) = (got.v1.clone().unwrap_generic(U1, Const::<2>), val.v1.clone().unwrap_generic(U1, Const::<2>));
+    let (g2, w2) = (got.v2.clone().unwrap_generic(Const::<2>, Const::<2>), val.v2.clone().unwrap_generic(Const::<2>, Const::<2>));
+    assert!(same64(got.re, val.re));
+    assert!(eq64(g1[0], w1[0]) && eq64(g1[1], w1[1]));
+    assert!(eq64(g2[0], w2[0]) && eq64(g2[1], w2[1]) && eq64(g2[2], w2[2]) && eq64(g2[3], w2[3]));
+    cover!(x.v2 != Derivative::none() && val.v2 == Derivative::none());
+}
+
 pub const LIST: &[(&str, fn())] = &[
+    ("c11_simd_dualvec_presence", c11_simd_dualvec_presence),
+    ("c11_simd_dual2vec_presence", c11_simd_dual2vec_presence),
     ("c11_consts_dual64", c11_consts_dual64),
     ("c11_consts_dual32", c11_consts_dual32),
     ("c11_consts_dual2_64", c11_consts_dual2_64),
